@@ -1233,7 +1233,7 @@ type Stats struct {
 	Wall                 time.Duration
 	PathLimitHit         bool
 	StoppedEarly         bool // exploration stopped after Opts.StopAfterViol candidate violations
-	NViol, NKnown        int // exact counts (Violations / KnownHits keep at most 8 witnesses per message / finding)
+	NViol, NKnown        int  // exact counts (Violations / KnownHits keep at most 8 witnesses per message / finding)
 	keep                 map[string]int
 	CrossQ, CrossUnknown int
 	CrossTime            time.Duration
